@@ -126,7 +126,8 @@ type Boundary struct {
 // GapText is what a layout puts into a gap.
 type GapText struct {
 	Blanks     string // blanks/tabs (used when no other field is set)
-	Cont       bool   // insert a backslash-newline (between blanks as needed)
+	Cont       bool   // insert a backslash-newline behind the blanks
+	After      string // blanks behind that backslash-newline
 	Comment    string // comment text without "#" (only before a newline / at end)
 	Newlines   int    // extra newlines (only where Linebreak); each may carry a comment
 	NLComments []string
@@ -374,14 +375,12 @@ func (r *renderer) stream(s *Stream, top bool) {
 			RenderExcluded["cont_before_linebreak_newline"]++
 		}
 		if g.Cont {
-			if b.Need != "" || blanks != "" {
-				r.b.WriteString(" \\\n")
-				if blanks != "" && blanks != " " {
-					r.b.WriteString(blanks)
-				}
-			} else {
-				r.b.WriteString("\\\n")
+			// the blank a boundary needs may stand on either side
+			before := g.Blanks
+			if len(before)+len(g.After) < len(b.Need) {
+				before = b.Need
 			}
+			r.b.WriteString(before + "\\\n" + g.After)
 		} else {
 			r.b.WriteString(blanks)
 		}
